@@ -120,6 +120,12 @@ package scheduler
 //@ props C15
 //@ assigns s.all
 //@ callreq resolveActiveValidators: a4 == slot.Epoch()
+// the validators every duty kind is resolved for were fetched from the beacon node by this very resolution, for the
+// epoch being resolved (never a set kept from an earlier attempt or another epoch)
+//@ callreq s.resolveAttDuties: ncalls(resolveActiveValidators) == 1
+//@ callreq s.resolveProDuties: ncalls(resolveActiveValidators) == 1
+//@ callreq s.resolveSyncCommDuties: ncalls(resolveActiveValidators) == 1
+//@ callreq s.setResolvedEpoch: ncalls(resolveActiveValidators) == 1
 //@ callreq s.resolveAttDuties: a2 == slot && a3 == vals
 //@ callreq s.resolveProDuties: a2 == slot && a3 == vals
 //@ callreq s.resolveSyncCommDuties: a2 == slot && a3 == vals
